@@ -121,11 +121,12 @@ V(h, d, t) == /\ val' = [val EXCEPT ![h] = d]
 ---------------------------------------------------------------------------
 Answer(a, arg, ret, out, either) ==
   obs' = [a |-> a, arg |-> arg,
-          exp |-> [ret |-> ret, out |-> out, vals |-> val', typs |-> vtyp',
-                   frozen |-> "ok", either |-> either],
+          exp |-> [ret |-> ret, out |-> out, vals |-> val', lens |-> [g \in H |-> Len(val'[g])],
+                   typs |-> vtyp', frozen |-> "ok", either |-> either],
           \* model diagnostics (never part of a verdict): capacities, sharing
           mdl |-> [sizes |-> [g \in H |-> rec'[g].size],
-                   refs |-> [g \in H |-> Cardinality(share'[g])]]]
+                   refs |-> [g \in H |-> Cardinality(share'[g])],
+                   imm |-> [g \in H |-> rec'[g].imm], nc |-> [g \in H |-> rec'[g].nc]]]
 
 Refuse(a, arg, either) ==
   /\ UNCHANGED <<val, vtyp, rec, share, ctr>>
@@ -367,7 +368,9 @@ String(h) ==
 (* (compact).  k and compact are the implementation's choice (capacity).   *)
 SWKeep(h, off, len, esz, nblk) ==     \* design: [k, compact, realloc]
   LET r == rec[h] pos == off + len avail == r.size - pos IN
-  IF ~Shared(h) /\ ~r.imm /\ nblk > 0 /\ avail >= esz
+  IF ~IsNull(h) /\ ~Shared(h) /\ ~r.imm /\ nblk = 0
+  THEN [k |-> 0, compact |-> FALSE, realloc |-> FALSE]
+  ELSE IF ~Shared(h) /\ ~r.imm /\ nblk > 0 /\ avail >= esz
   THEN [k |-> Min(nblk, avail \div esz), compact |-> FALSE, realloc |-> FALSE]
   ELSE IF ~Shared(h) /\ ~r.imm /\ nblk > 0 /\ off > 0 /\ avail + off >= esz
   THEN [k |-> Min(nblk, (r.size - len) \div esz), compact |-> TRUE, realloc |-> FALSE]
@@ -433,10 +436,11 @@ Init ==
   /\ val = [h \in H |-> <<>>] /\ vtyp = [h \in H |-> "none"]
   /\ rec = [h \in H |-> Null] /\ share = [h \in H |-> {h}]
   /\ touch = {} /\ ctr = 0
-  /\ obs = [a |-> "init", arg |-> [n |-> NH],
-            exp |-> [ret |-> "ok", out |-> <<>>, vals |-> [h \in H |-> <<>>],
+  /\ obs = [a |-> "init", arg |-> [n |-> NH, gran |-> Gran],
+            exp |-> [ret |-> "ok", out |-> <<>>, vals |-> [h \in H |-> <<>>], lens |-> [h \in H |-> 0],
                      typs |-> [h \in H |-> "none"], frozen |-> "ok", either |-> FALSE],
-            mdl |-> [sizes |-> [h \in H |-> 0], refs |-> [h \in H |-> 1]]]
+            mdl |-> [sizes |-> [h \in H |-> 0], refs |-> [h \in H |-> 1],
+                     imm |-> [h \in H |-> FALSE], nc |-> [h \in H |-> FALSE]]]
 
 Types  == {"raw", "c", "n"}
 TTypes == {"c", "n"}
